@@ -408,3 +408,55 @@ def ceq_concrete(p, m):
     same = f(z[0]) == f(w[0]) and f(z[1]) == (f(w[1]) if rhs == 'mpc' else 0)
     want = same if p['fn'] == '__eq__' else not same
     return r == want, 'mpc %r %s %r -> %r, exact %r' % (z, p['fn'], w, r, want)
+
+
+# ------------------------------------------------------------------------------ wrapper obligations with kernel stubs (C10)
+def nthroot_bits(p):
+    """mpc_nthroot(z, n, prec, rnd): whatever the Newton kernel (mpc_nthroot_fixed) or the power kernel (mpc_pow) returns,
+    the parts handed back carry at most `prec` bits.  Kernels are stubs returning arbitrary values of the working size."""
+    from pysym import mpmodels
+    from pysym.engine import NORMAL
+    n, prec, rnd = p['n'], p['prec'], p['rnd']
+    Lc = libmpc()
+    prec2 = int(1.2 * (prec + 10))
+    ob = Ob(wbump(p, prec2 + 80), timeout_s=p.get('_t', 60), models=mpmodels.mp_models(contract_divmod=True, contract_sqrt=True), mul_precise_bits=0)
+    a = ob.mpf('a', 5, exp=p.get('aexp', -3))
+    b = ob.mpf('b', 4, exp=p.get('bexp', -2))
+    R = ob.int('R', -(1 << (prec2 + 12)), 1 << (prec2 + 12))
+    I = ob.int('I', -(1 << (prec2 + 12)), 1 << (prec2 + 12))
+
+    def m_fixed(eng, st, args, kw, fr):
+        return [(st, NORMAL, (R, I))]
+    wp = prec + 20
+    pr, pi_ = ob.mpf('pr', wp), ob.mpf('pi', wp)
+
+    def m_pow(eng, st, args, kw, fr):
+        return [(st, NORMAL, (pr, pi_))]
+    ob.eng.models[Lc.mpc_nthroot_fixed] = m_fixed
+    ob.eng.models[Lc.mpc_pow] = m_pow
+    mag = ob.mpf('absz', min(prec, 8), exp=ob.int('absz_exp', -prec - 30, prec + 30), sign=0)     # |z|: only its magnitude class matters here
+
+    def m_abs(eng, st, args, kw, fr):
+        return [(st, NORMAL, mag)]
+    ob.eng.models[Lc.mpc_abs] = m_abs
+    outs = ob.run(Lc.mpc_nthroot, [(a, b), n, prec, rnd])
+
+    # known finding F11 (open): the Newton path rounds to prec2 = int(1.2*(prec+10)) instead of prec.  Weakened re-run: at most
+    # prec2 bits (exactly the recorded behaviour); anything longer is still a violation.
+    limit = prec2 if p.get('_known') == 'F11' else prec
+
+    def good(val, st):
+        if not isinstance(val, tuple) or len(val) != 2:
+            return False
+        return [z3.Or(is_tuple(c, FZERO), canonical(c, limit)) for c in val]
+    return finish(ob, ob.prove(outs, good))
+
+
+def nthroot_bits_concrete(p, m):
+    Lc = libmpc()
+    a = mk_tuple(m, 'a', 5, exp=p.get('aexp', -3))
+    b = mk_tuple(m, 'b', 4, exp=p.get('bexp', -2))
+    r = Lc.mpc_nthroot((a, b), p['n'], p['prec'], p['rnd'])
+    limit = int(1.2 * (p['prec'] + 10)) if p.get('_known') == 'F11' else p['prec']
+    bad = [c for c in r if not O.canonical_concrete(tuple(c), limit)]
+    return not bad, 'mpc_nthroot(%r, %d, prec=%d) returned parts with %s bits' % ((a, b), p['n'], p['prec'], [c[3] for c in r])
